@@ -101,10 +101,18 @@ fn case(cfg: &Config, tmp: &Path, fakebin: &Path, idx: u64, r: &mut Rng, st: &mu
     o.term_depth = 1;
     o.preds = vec![("p".into(), 1), ("q".into(), 1), ("s".into(), 0)];
     let l = gen_program(r, &o);
-    let rt = if r.chance(1, 2) { mutate_program(r, &l) } else { gen_program(r, &o) };
+    let mut rt = if r.chance(1, 2) { mutate_program(r, &l) } else { gen_program(r, &o) };
+    let empty_side = r.chance(1, 20);
+    if empty_side {
+        // an empty program: one direction has nothing to prove
+        rt = String::new();
+    }
     std::fs::write(d.join("a.1.lp"), &l).unwrap();
     std::fs::write(d.join("a.2.lp"), &rt).unwrap();
-    let flags = Flags { sequential: r.chance(1, 2), direction: [Dir::Universal, Dir::Universal, Dir::Forward, Dir::Backward][r.upto(4)], simplify: r.chance(1, 2), break_equivalences: r.chance(1, 2) };
+    let mut flags = Flags { sequential: r.chance(1, 2), direction: [Dir::Universal, Dir::Universal, Dir::Forward, Dir::Backward][r.upto(4)], simplify: r.chance(1, 2), break_equivalences: r.chance(1, 2) };
+    if empty_side && r.chance(2, 3) {
+        flags.direction = Dir::Forward;
+    }
     let mut base: Vec<String> = vec!["verify".into(), "--equivalence".into(), "strong".into(), "--no-timing".into()];
     base.extend(flags.cli_args());
     let files = ["a.1.lp".to_string(), "a.2.lp".to_string()];
@@ -123,10 +131,7 @@ fn case(cfg: &Config, tmp: &Path, fakebin: &Path, idx: u64, r: &mut Rng, st: &mu
     for e in std::fs::read_dir(&dry).unwrap().flatten() {
         problems.insert(e.file_name().to_string_lossy().trim_end_matches(".p").to_string(), std::fs::read(e.path()).unwrap());
     }
-    if problems.is_empty() {
-        let _ = std::fs::remove_dir_all(&d);
-        return;
-    }
+    // (a task without problems is kept: nothing to prove, success for every number of instances)
     // 2. plan
     let mode = r.below(10); // 0: all theorem, 1: missing executable, 2: early close, else mixed
     let mut plan_by_hash: BTreeMap<u64, (&'static str, Expect, Option<&'static str>, u64)> = BTreeMap::new();
@@ -202,6 +207,17 @@ fn case(cfg: &Config, tmp: &Path, fakebin: &Path, idx: u64, r: &mut Rng, st: &mu
     if saved != problems {
         st.eval(None);
         st.violation("saved-problems-differ-between-runs", "the problems saved with proof search differ from those of the --no-proof-search run", origin.clone());
+    }
+    if problems.is_empty() {
+        st.inc("runs_with_zero_problems");
+        if !success || !recs.is_empty() {
+            st.eval(None);
+            st.violation("failure-although-nothing-to-prove", format!("the task has no problem, anthem reported failure or started a prover ({} prover runs)", recs.len()), origin.clone());
+        } else {
+            st.eval(Some(&origin.compact()));
+        }
+        let _ = std::fs::remove_dir_all(&d);
+        return;
     }
     match mode {
         1 | 2 => {
